@@ -21,6 +21,7 @@ import (
 	"strings"
 	"sync"
 	"sync/atomic"
+	"unsafe"
 )
 
 // Interpreter node structure for AST and CFG.
@@ -110,6 +111,11 @@ type frame struct {
 	// Located at start of struct to ensure proper alignment.
 	id uint64
 
+	// epoch points to the evaluation under which the frame was created, nil for a
+	// call made by the host. It only changes in the global frame, where Execute sets
+	// it: accessed via getEpoch/setEpoch.
+	epoch unsafe.Pointer
+
 	debug *frameDebugData
 
 	root *frame          // global space
@@ -133,25 +139,52 @@ func newFrame(anc *frame, length int, id uint64) *frame {
 	} else {
 		f.done = anc.done
 		f.root = anc.root
+		f.epoch = unsafe.Pointer(anc.getEpoch())
 	}
 	return f
 }
 
-// newCallFrame returns a frame for a call of a function value bound to frame anc
-// (a closure or a function wrapper). The call belongs to the current evaluation,
-// not to the evaluation which created the function value: the run id and the
-// cancellation channel are those of the root frame.
-func newCallFrame(anc *frame, length int) *frame {
-	root := anc.root
-	f := newFrame(anc, length, root.runid())
-	root.mutex.RLock()
-	f.done = root.done
-	root.mutex.RUnlock()
-	return f
+// An epoch is the span of one evaluation (Execute, or the initialisation of an
+// imported package). Every frame points to the epoch under which it was created.
+type epoch struct {
+	cancelled bool // set by stop, protected by the mutex of the interpreter
+}
+
+// deadRunID is a run id which the interpreter never has: a frame with this id runs nothing.
+const deadRunID = ^uint64(0)
+
+// newCallFrame returns a frame for a call of a function value (a closure or a function
+// wrapper) bound to frame anc and created under epoch e, nil for a function value handed
+// to the host outside of any evaluation.
+//
+// If the evaluation which created the function value has been cancelled, the call is
+// made by what is left of it (a callback of native code, a goroutine which was about
+// to start, a deferred call of a released goroutine): it runs nothing. Otherwise the
+// call belongs to the current run, whoever makes it, an evaluation or the host: it gets
+// the current run id and cancellation channel of the interpreter, so that a later
+// cancellation stops it, and no earlier one has any effect on it.
+func newCallFrame(interp *Interpreter, anc *frame, length int, e *epoch) *frame {
+	interp.mutex.RLock()
+	id, done := interp.runid(), interp.done
+	if e != nil && e.cancelled {
+		id = deadRunID
+	}
+	interp.mutex.RUnlock()
+
+	return &frame{
+		anc:   anc,
+		root:  anc.root,
+		data:  make([]reflect.Value, length),
+		id:    id,
+		epoch: unsafe.Pointer(e),
+		done:  reflect.SelectCase{Dir: reflect.SelectRecv, Chan: reflect.ValueOf(done)},
+	}
 }
 
 func (f *frame) runid() uint64      { return atomic.LoadUint64(&f.id) }
 func (f *frame) setrunid(id uint64) { atomic.StoreUint64(&f.id, id) }
+func (f *frame) getEpoch() *epoch   { return (*epoch)(atomic.LoadPointer(&f.epoch)) }
+func (f *frame) setEpoch(e *epoch)  { atomic.StorePointer(&f.epoch, unsafe.Pointer(e)) }
 func (f *frame) clone() *frame {
 	f.mutex.RLock()
 	defer f.mutex.RUnlock()
@@ -161,6 +194,7 @@ func (f *frame) clone() *frame {
 		deferred:  f.deferred,
 		recovered: f.recovered,
 		id:        f.runid(),
+		epoch:     unsafe.Pointer(f.getEpoch()),
 		done:      f.done,
 		debug:     f.debug,
 	}
@@ -220,12 +254,13 @@ type Interpreter struct {
 	mapTypes   map[reflect.Value][]reflect.Type // special interfaces mapping for wrappers
 
 	mutex    sync.RWMutex
-	frame    *frame            // program data storage during execution
-	universe *scope            // interpreter global level scope
-	scopes   map[string]*scope // package level scopes, indexed by import path
-	srcPkg   imports           // source packages used in interpreter, indexed by path
-	pkgNames map[string]string // package names, indexed by import path
-	done     chan struct{}     // for cancellation of channel operations
+	frame    *frame              // program data storage during execution
+	universe *scope              // interpreter global level scope
+	scopes   map[string]*scope   // package level scopes, indexed by import path
+	srcPkg   imports             // source packages used in interpreter, indexed by path
+	pkgNames map[string]string   // package names, indexed by import path
+	done     chan struct{}       // for cancellation of channel operations
+	running  map[*epoch]struct{} // evaluations in progress, see begin
 	roots    []*node
 	generic  map[string]*node
 
@@ -349,6 +384,7 @@ func New(options Options) *Interpreter {
 		rdir:     map[string]bool{},
 		hooks:    &hooks{},
 		generic:  map[string]*node{},
+		running:  map[*epoch]struct{}{},
 	}
 
 	if i.opt.stdin = options.Stdin; i.opt.stdin == nil {
@@ -615,8 +651,13 @@ func (interp *Interpreter) EvalWithContext(ctx context.Context, src string) (ref
 // operation short circuit channel. stop may only be called once per
 // invocation of EvalWithContext.
 func (interp *Interpreter) stop() {
-	atomic.AddUint64(&interp.id, 1)
 	interp.mutex.Lock()
+	// The evaluations in progress are cancelled, all of them: what remains of them
+	// after the next evaluation has started must not be taken for a part of it.
+	for e := range interp.running {
+		e.cancelled = true
+	}
+	atomic.AddUint64(&interp.id, 1)
 	close(interp.done)
 	// The channel operations of the next evaluations are not cancelled.
 	interp.done = make(chan struct{})
@@ -624,6 +665,24 @@ func (interp *Interpreter) stop() {
 }
 
 func (interp *Interpreter) runid() uint64 { return atomic.LoadUint64(&interp.id) }
+
+// begin starts an evaluation in the global frame, which gets the current run id and a
+// new epoch. The caller must call end with the returned epoch when the evaluation returns.
+func (interp *Interpreter) begin() *epoch {
+	e := new(epoch)
+	interp.mutex.Lock()
+	interp.running[e] = struct{}{}
+	interp.frame.setrunid(interp.runid())
+	interp.frame.setEpoch(e)
+	interp.mutex.Unlock()
+	return e
+}
+
+func (interp *Interpreter) end(e *epoch) {
+	interp.mutex.Lock()
+	delete(interp.running, e)
+	interp.mutex.Unlock()
+}
 
 // ignoreScannerError returns true if the error from Go scanner can be safely ignored
 // to let the caller grab one more line before retrying to parse its input.
